@@ -64,6 +64,7 @@ var _ imap.UID // used by //@ func headers
 //@   assumes old(dec.err) != nil ==> dec.err == old(dec.err)
 //@   ensures !__called("f") ==> dec.listDepth == old(dec.listDepth)
 //@   ensures __called("f") ==> old(dec.listDepth)+1 < maxListDepth
+//@   ensures[C11] err != nil && !__called("f") ==> dec.err != nil
 
 //@ func (dec *Decoder) ExpectList(f func() error) (err error)
 //@   props C02:post,pre@call C04:post,pre@call C05:post,pre@call C06:bounds,assert-type,div0,panic-unreachable,pre@call
@@ -318,6 +319,8 @@ func FlagGrammar(s string) bool {
 //@   callsite io.Copy(dst io.Writer, src io.Reader) requires dec.CheckBufferedLiteralFunc == nil || __called("CheckBufferedLiteralFunc")
 //@   ensures[C04] __called("CheckBufferedLiteralFunc") && __failed("CheckBufferedLiteralFunc") ==> !result && dec.err != nil
 //@   ensures[C04] __called("CheckBufferedLiteralFunc") && __failed("CheckBufferedLiteralFunc") && __resultBool("Decoder.LiteralReader", 1) ==> __called("Copy")
+//@   props C11:post
+//@   ensures[C11] result && !(__called("CheckBufferedLiteralFunc") && __failed("CheckBufferedLiteralFunc")) ==> __called("Copy") && __result("Copy") == __result("LiteralReader.Size")
 
 
 var (
